@@ -1,4 +1,329 @@
 import GeoVerif.Model.Harmonic
+import GeoVerif.Spec.RealInst
+import Mathlib.Tactic.Ring
+import Mathlib.Tactic.Linarith
+import Mathlib.Tactic.LinearCombination
+import Mathlib.Tactic.FieldSimp
+import Mathlib.Tactic.NormNum
+import Mathlib.Algebra.Group.Int.Even
+import Mathlib.Analysis.Real.Pi.Bounds
+/-!
+# C19 — harmonic sums, packed coefficient storage, magnetic time interpolation, normal gravity
+
+All statements are about the definitions of `Model/Harmonic.lean`, the same terms the driver executes against
+`SphericalEngine::coeff`, `SphericalHarmonic`(1, 2), `MagneticModel::FieldGeocentric` and `NormalGravity`.
+-/
 namespace GeoVerif.Props.C19
-theorem draft : True := trivial
+open GeoVerif GeoVerif.Harmonic
+
+/-! ## Clenshaw summation for an arbitrary three-term recurrence -/
+
+section Clenshaw
+variable {R : Type} [CommRing R]
+
+/-- the defining sum `Σ_j cs[j]·F(k + j)` -/
+def dsum (F : ℕ → R) : ℕ → List R → R
+  | _, [] => 0
+  | k, c :: cs => c * F k + dsum F (k + 1) cs
+
+/-- partial sums started at an index `k + 1 ≥ 1`:
+    `Σ_j cs[j]·F(k+1+j) = y_{k+1}·F(k+1) + β_{k+1}·F(k)·y_{k+2}` -/
+theorem clenshaw_tail (al be F : ℕ → R) (hF : ∀ k, F (k + 2) = al (k + 1) * F (k + 1) + be (k + 1) * F k)
+    (cs : List R) (k : ℕ) :
+    dsum F (k + 1) cs = (clenG 0 al be (k + 1) cs).1 * F (k + 1) + be (k + 1) * F k * (clenG 0 al be (k + 1) cs).2 := by
+  induction cs generalizing k with
+  | nil => simp [dsum, clenG]
+  | cons c cs ih =>
+    have h := ih (k + 1)
+    simp only [dsum, clenG]
+    rw [h, hF k]
+    ring
+
+/-- **Clenshaw**: for every three-term recurrence `F(k+2) = α_{k+1}·F(k+1) + β_{k+1}·F(k)` started with
+    `F(1) = α_0·F(0)` over a commutative ring, the backward recurrence
+    `y_k = α_k·y_{k+1} + β_{k+1}·y_{k+2} + c_k` returns the defining sum: `Σ_k c_k·F(k) = y_0·F(0)`.
+    This is the mathematical core of the inner (degree) and outer (order) loops of `SphericalEngine::Value`. -/
+theorem clenshaw_general (al be F : ℕ → R) (hF : ∀ k, F (k + 2) = al (k + 1) * F (k + 1) + be (k + 1) * F k)
+    (hF1 : F 1 = al 0 * F 0) (cs : List R) :
+    dsum F 0 cs = (clenG 0 al be 0 cs).1 * F 0 := by
+  cases cs with
+  | nil => simp [dsum, clenG]
+  | cons c cs =>
+    have h := clenshaw_tail al be F hF cs 0
+    simp only [dsum, clenG]
+    simp only [Nat.zero_add] at h ⊢
+    rw [h, hF1]
+    ring
+
+/-- non-vacuity: `F(k) = k + 1` satisfies `F(k+2) = 2·F(k+1) − F(k)`, `F(1) = 2·F(0)` -/
+example : ∃ al be F : ℕ → ℤ, (∀ k, F (k + 2) = al (k + 1) * F (k + 1) + be (k + 1) * F k) ∧ F 1 = al 0 * F 0 ∧ F 0 ≠ 0 :=
+  ⟨fun _ => 2, fun _ => -1, fun k => (k : ℤ) + 1, fun k => by push_cast; ring, by norm_num, by norm_num⟩
+
+/-- the outer loop sums two families (cosine and sine) that share `α, β` but start with `F^c(0) = 1`, `F^c(1) = cl·A₀`
+    and `F^s(0) = 0`, `F^s(1) = sl·A₀`: the last step of `Value` is
+    `Σ_m (wc_m·F^c(m) + ws_m·F^s(m)) = wc₀ + A₀·(cl·vc + sl·vs) + B₀·vc2` -/
+theorem clenshaw_outer (al be Fc Fs : ℕ → R)
+    (hFc : ∀ k, Fc (k + 2) = al (k + 1) * Fc (k + 1) + be (k + 1) * Fc k)
+    (hFs : ∀ k, Fs (k + 2) = al (k + 1) * Fs (k + 1) + be (k + 1) * Fs k)
+    (A0 cl sl : R) (hc0 : Fc 0 = 1) (hs0 : Fs 0 = 0) (hc1 : Fc 1 = cl * A0) (hs1 : Fs 1 = sl * A0)
+    (wc0 : R) (wcs wss : List R) :
+    wc0 * Fc 0 + dsum Fc 1 wcs + dsum Fs 1 wss =
+      wc0 + A0 * (cl * (clenG 0 al be 1 wcs).1 + sl * (clenG 0 al be 1 wss).1) + be 1 * (clenG 0 al be 1 wcs).2 := by
+  have h1 := clenshaw_tail al be Fc hFc wcs 0
+  have h2 := clenshaw_tail al be Fs hFs wss 0
+  simp only [Nat.zero_add] at h1 h2
+  rw [h1, h2, hc0, hs0, hc1, hs1]
+  ring
+
+end Clenshaw
+
+/-! ## packed triangular storage -/
+
+theorem two_tri (m : Int) : m * (m - 1) / 2 * 2 = m * (m - 1) :=
+  Int.ediv_mul_cancel (even_iff_two_dvd.mp (Int.even_mul_pred_self m))
+
+theorem two_index (N n m : Int) : 2 * index N n m = 2 * m * N - m * (m - 1) + 2 * n := by
+  have := two_tri m
+  unfold index
+  linarith
+
+theorem two_csize (N M : Int) : 2 * csize N M = (M + 1) * (2 * N - M + 2) := by
+  have h : (2 : Int) ∣ (M + 1) * (2 * N - M + 2) := by
+    have e : (M + 1) * (2 * N - M + 2) = 2 * ((M + 1) * (N + 1)) - M * (M + 1) := by ring
+    rw [e]
+    exact Int.dvd_sub (Dvd.intro _ rfl) (even_iff_two_dvd.mp (Int.even_mul_succ_self M))
+  unfold csize
+  have := Int.ediv_mul_cancel h
+  omega
+
+/-- the (n, m) pairs stored for layout degree `N` and highest order `M ≤ N` -/
+def inTri (N M n m : Int) : Prop := 0 ≤ m ∧ m ≤ M ∧ m ≤ n ∧ n ≤ N
+
+/-- **`index` is injective on the stored triangle** -/
+theorem index_injective (N M : Int) (hM : M ≤ N) {n m n' m' : Int} (h : inTri N M n m) (h' : inTri N M n' m')
+    (e : index N n m = index N n' m') : n = n' ∧ m = m' := by
+  obtain ⟨h0, h1, h2, h3⟩ := h
+  obtain ⟨h0', h1', h2', h3'⟩ := h'
+  have e2 : 2 * m * N - m * (m - 1) + 2 * n = 2 * m' * N - m' * (m' - 1) + 2 * n' := by
+    rw [← two_index, ← two_index, e]
+  have key : ∀ (a b na nb : Int), 0 ≤ a → a < b → b ≤ N → a ≤ na → na ≤ N → b ≤ nb → nb ≤ N →
+      2 * a * N - a * (a - 1) + 2 * na < 2 * b * N - b * (b - 1) + 2 * nb := by
+    intro a b na nb ha hab hbN _ hnaN hbnb _
+    -- difference ≥ (b−a)(2N − a − b + 1) + 2(b − N) = 2(N−b)(b−a−1) + (b−a)(b−a+1) > 0
+    have hd : 0 < b - a := by omega
+    nlinarith [mul_nonneg (by omega : (0:Int) ≤ N - b) (by omega : (0:Int) ≤ b - a - 1), mul_pos hd (by omega : (0:Int) < b - a + 1)]
+  rcases lt_trichotomy m m' with hlt | heq | hgt
+  · have := key m m' n n' h0 hlt (by omega) h2 h3 h2' h3'
+    omega
+  · subst heq
+    constructor
+    · omega
+    · rfl
+  · have := key m' m n' n h0' hgt (by omega) h2' h3' h2 h3
+    omega
+
+/-- **range**: stored indices lie in `[0, Csize(N, M))` -/
+theorem index_range (N M : Int) (hM : M ≤ N) {n m : Int} (h : inTri N M n m) :
+    0 ≤ index N n m ∧ index N n m < csize N M := by
+  obtain ⟨h0, h1, h2, h3⟩ := h
+  have hi := two_index N n m
+  have hc := two_csize N M
+  constructor
+  · have : 0 ≤ 2 * m * N - m * (m - 1) + 2 * n := by nlinarith [mul_nonneg h0 (by omega : (0:Int) ≤ N - m)]
+    omega
+  · -- 2·index ≤ 2mN − m(m−1) + 2N  and  2·csize − that = (M−m)(2N − M − m + 1) + 2 > 0
+    have : 2 * m * N - m * (m - 1) + 2 * n < (M + 1) * (2 * N - M + 2) := by
+      nlinarith [mul_nonneg (by omega : (0:Int) ≤ M - m) (by omega : (0:Int) ≤ 2 * N - M - m + 1)]
+    omega
+
+/-- columns are contiguous: the first and last stored entries are `0` and `Csize − 1`, consecutive degrees are adjacent
+    and column `m + 1` starts right after column `m` ends (so with injectivity `index` is a bijection onto `[0, Csize)`) -/
+theorem index_contiguous (N M n m : Int) :
+    index N 0 0 = 0 ∧ index N N M = csize N M - 1 ∧ index N (n + 1) m = index N n m + 1 ∧
+    index N (m + 1) (m + 1) = index N N m + 1 := by
+  have h1 := two_index N 0 0
+  have h2 := two_index N N M
+  have h3 := two_csize N M
+  have h4 := two_index N (n + 1) m
+  have h5 := two_index N n m
+  have h6 := two_index N (m + 1) (m + 1)
+  have h7 := two_index N N m
+  refine ⟨by omega, ?_, by omega, ?_⟩
+  · have : 2 * M * N - M * (M - 1) + 2 * N = (M + 1) * (2 * N - M + 2) - 2 := by ring
+    omega
+  · have : 2 * (m + 1) * N - (m + 1) * (m + 1 - 1) + 2 * (m + 1) = 2 * m * N - m * (m - 1) + 2 * N + 2 := by ring
+    omega
+
+/-- **`index` is onto `[0, Csize(N, M))`** -/
+theorem index_surjective (N : Int) (M : ℕ) (hM : (M : Int) ≤ N) (k : Int) (hk : 0 ≤ k ∧ k < csize N M) :
+    ∃ n m, inTri N M n m ∧ index N n m = k := by
+  induction M with
+  | zero =>
+    refine ⟨k, 0, ⟨le_refl _, le_refl _, hk.1, ?_⟩, ?_⟩
+    · have := two_csize N 0
+      simp at this
+      have hk2 := hk.2
+      simp at hk2
+      omega
+    · simp [index]
+  | succ M ih =>
+    have hc := two_csize N M
+    have hc' := two_csize N (M + 1 : ℕ)
+    push_cast at hM hc' hk
+    by_cases hlt : k < csize N M
+    · obtain ⟨n, m, ⟨a, b, c, d⟩, e⟩ := ih (by omega) ⟨hk.1, hlt⟩
+      exact ⟨n, m, ⟨a, by push_cast; omega, c, d⟩, e⟩
+    · have hcol := (index_contiguous N M 0 M).2.1
+      refine ⟨(M : Int) + 1 + (k - csize N M), (M : Int) + 1, ⟨by omega, by push_cast; omega, by omega, ?_⟩, ?_⟩
+      · -- k < csize N (M+1) = csize N M + (N − M)
+        have : (↑M + 1 + 1) * (2 * N - (↑M + 1) + 2) = (↑M + 1) * (2 * N - ↑M + 2) + 2 * (N - ↑M) := by ring
+        omega
+      · have h1 := two_index N ((M : Int) + 1 + (k - csize N M)) ((M : Int) + 1)
+        have : 2 * ((M : Int) + 1) * N - ((M : Int) + 1) * ((M : Int) + 1 - 1) = (↑M + 1) * (2 * N - ↑M + 2) - 2 * (↑M + 1) := by ring
+        omega
+
+/-- **`Csize` is the number of stored pairs**: `Csize(N, M) = Σ_{m=0}^{M} (N + 1 − m)` -/
+theorem csize_count (N : Int) (M : ℕ) : csize N M = ((List.range (M + 1)).map fun m : ℕ => N + 1 - (m : Int)).sum := by
+  induction M with
+  | zero => simp [csize]; omega
+  | succ M ih =>
+    rw [List.range_succ, List.map_append, List.sum_append, ← ih]
+    have h1 := two_csize N M
+    have h2 := two_csize N (M + 1 : ℕ)
+    push_cast at h2 ⊢
+    simp only [List.map_cons, List.map_nil, List.sum_cons, List.sum_nil]
+    have : (↑M + 1 + 1) * (2 * N - (↑M + 1) + 2) = (↑M + 1) * (2 * N - ↑M + 2) + 2 * (N - ↑M) := by ring
+    omega
+
+/-- `Ssize`: the same count without the `m = 0` column -/
+theorem ssize_eq (N M : Int) : ssize N M = csize N M - (N + 1) := rfl
+
+example : inTri 6 4 5 3 ∧ index 6 5 3 = 20 ∧ csize 6 4 = 25 := by unfold inTri index csize; norm_num
+
+/-! ## truncated reading through the range-checked accessors -/
+
+/-- **`Cv(k, n, m, f)`/`Sv(k, n, m, f)` select exactly the sub-triangle `n ≤ nmx ∧ m ≤ mmx`** of whatever layout
+    the set is stored in: inside it the stored coefficient (times `f`) is returned, outside `0` — in particular for
+    `nmx < n ≤ N` (coefficients present in storage but excluded from the sum). -/
+theorem truncation_selects (c : Coeff ℝ) (n m : Int) (f : ℝ) :
+    c.cv 0 (index c.N n m) n m f = (if n ≤ c.nmx ∧ m ≤ c.mmx then c.cv0 0 (index c.N n m) * f else 0) ∧
+    c.sv 0 (index c.N n m) n m f = (if n ≤ c.nmx ∧ m ≤ c.mmx then c.sv0 0 (index c.N n m) * f else 0) := by
+  unfold Coeff.cv Coeff.sv Coeff.cv0 Coeff.sv0
+  by_cases h1 : m > c.mmx <;> by_cases h2 : n > c.nmx <;> simp [h1, h2]
+
+/-- the statement also holds at the layout boundary: a stored, non-zero coefficient of degree `nmx < n ≤ N` is *not* read -/
+example : let c : Coeff ℝ := ⟨2, 1, 1, [1, 2, 3, 4, 5, 6], [7, 8, 9]⟩
+    c.cv0 0 (index 2 2 0) = 3 ∧ c.cv 0 (index 2 2 0) 2 0 1 = 0 ∧ c.cv 0 (index 2 1 1) 1 1 1 = 4 := by
+  simp [Coeff.cv0, Coeff.cv, index, getI]
+
+/-- the combined coefficient of `Value` (first set unchecked inside its own truncation, further sets checked) is the
+    `f`-weighted sum of the truncated sets -/
+theorem combC_two (c0 c1 : Coeff ℝ) (f0 f1 sc : ℝ) (n m : ℕ) :
+    combC 0 [(c0, f0), (c1, f1)] sc n m =
+      (c0.cv0 0 (index c0.N n m) + (if (n : Int) ≤ c1.nmx ∧ (m : Int) ≤ c1.mmx then c1.cv0 0 (index c1.N n m) * f1 else 0)) * sc := by
+  simp only [combC, List.foldl_cons, List.foldl_nil]
+  rw [(truncation_selects c1 n m f1).1]
+
+/-! ## magnetic model: epoch selection, interpolation within an epoch, continuity across epochs, extrapolation -/
+
+theorem epochIndex_spec (k : Int) (nM : ℕ) (h : 1 ≤ nM) :
+    (epochIndex k nM : Int) = if k < 0 then 0 else if k ≤ (nM : Int) - 1 then k else (nM : Int) - 1 := by
+  unfold epochIndex
+  split_ifs <;> omega
+
+/-- **linear in time within an epoch**: with the epoch fixed, the field is `B_n + (t − t₀ − n·Δ)·rate + Bc`, the rate
+    being the difference quotient of the neighbouring models (interpolation) or the secular-variation model
+    (extrapolation, last epoch) -/
+theorem time_interp (B : ℕ → ℝ) (Bc t t0 dt0 : ℝ) (k : Int) (nM : ℕ) :
+    let n := epochIndex k nM
+    let rate := if n + 1 < nM then (B (n + 1) - B n) / dt0 else B (n + 1)
+    fieldAt B Bc t t0 dt0 k nM = (B n + (t - t0 - (n : ℝ) * dt0) * rate + Bc, rate) := by
+  simp only [fieldAt, ofNat_real]
+  split_ifs <;> (ext <;> simp; ring)
+
+/-- the field is affine in `t` while the epoch does not change -/
+theorem time_linear (B : ℕ → ℝ) (Bc t t' t0 dt0 : ℝ) (k : Int) (nM : ℕ) :
+    (fieldAt B Bc t t0 dt0 k nM).1 - (fieldAt B Bc t' t0 dt0 k nM).1 = (t - t') * (fieldAt B Bc t t0 dt0 k nM).2 := by
+  simp only [fieldAt, ofNat_real]
+  split_ifs <;> ring
+
+/-- **continuity across epochs**: at the epoch boundary `t = t₀ + (k+1)·Δ` (with `0 ≤ k`, `k + 1 ≤ nM − 1`) the value
+    computed in epoch `k` equals the value computed in epoch `k + 1` (whether or not that one interpolates) -/
+theorem time_continuous (B : ℕ → ℝ) (Bc t0 dt0 : ℝ) (k nM : ℕ) (hk : k + 1 ≤ nM - 1) (hd : dt0 ≠ 0) :
+    (fieldAt B Bc (t0 + ((k : ℝ) + 1) * dt0) t0 dt0 k nM).1 = (fieldAt B Bc (t0 + ((k : ℝ) + 1) * dt0) t0 dt0 (k + 1 : ℕ) nM).1 := by
+  have e1 : epochIndex (k : Int) nM = k := by unfold epochIndex; omega
+  have e2 : epochIndex ((k + 1 : ℕ) : Int) nM = k + 1 := by unfold epochIndex; omega
+  simp only [fieldAt, ofNat_real, e1, e2]
+  have hlt : k + 1 < nM := by omega
+  simp only [hlt, if_true]
+  push_cast
+  split_ifs <;> field_simp <;> ring
+
+/-- **extrapolation** before the first epoch uses epoch 0 and after the last one the last model with its secular variation -/
+theorem time_extrapolation (nM : ℕ) (h : 1 ≤ nM) (k : Int) :
+    (k < 0 → epochIndex k nM = 0) ∧ ((nM : Int) - 1 ≤ k → epochIndex k nM = nM - 1 ∧ ¬ (epochIndex k nM + 1 < nM)) := by
+  unfold epochIndex
+  constructor
+  · intro hk; omega
+  · intro hk; omega
+
+example : ∃ nM k : ℕ, k + 1 ≤ nM - 1 := ⟨3, 1, by norm_num⟩
+
+/-! ## normal gravity -/
+
+/-- **the normal potential is constant on the reference ellipsoid** `u = b`: for every reduced latitude `β`
+    `U(b, β) = GM/E·atan(E/b) + ω²a²/3` (H+M 2-61) -/
+theorem normal_U_const (GM omega a b E sbet cbet : ℝ) (h : sbet ^ 2 + cbet ^ 2 = 1) (hE : a ^ 2 = b ^ 2 + E ^ 2)
+    (hq : qfun E b ≠ 0) :
+    normalU GM omega a b E b sbet cbet = GM / E * Real.arctan (E / b) + omega ^ 2 * a ^ 2 / 3 := by
+  unfold normalU
+  rw [div_self hq]
+  simp only [sq_real, lit_real, RealLike.atan]
+  push_cast
+  have hc : cbet ^ 2 = 1 - sbet ^ 2 := by linear_combination h
+  rw [← hE, hc]
+  ring
+
+/-- non-vacuity of `qfun E b ≠ 0`: `q(1, 1) = (π − 3)/2 > 0` -/
+example : qfun (1 : ℝ) 1 ≠ 0 := by
+  have h : qfun (1 : ℝ) 1 = (Real.pi - 3) / 2 := by
+    unfold qfun
+    simp only [sq_real, lit_real, RealLike.atan]
+    push_cast
+    rw [div_one, Real.arctan_one]
+    ring
+  rw [h]
+  have := Real.pi_gt_three
+  intro h0
+  linarith
+
+/-- **`FlatteningToJ2` is H+M eq. 2-90**: with `e′ = √(e²/(1−f)²)`, `m = ω²a²b/GM`, `q₀ = ½[(1 + 3/e′²)·atan e′ − 3/e′]`
+    the coded expression `(e² − K(1−f)³/Q(e′))/3`, `K = 2a³ω²/(15 GM)`, equals `e²/3·(1 − (2/15)·m·e′/q₀)` -/
+theorem flatteningToJ2_is_HM (a GM omega f : ℝ) (hf0 : 0 < f) (hf1 : f < 1) (hGM : GM ≠ 0)
+    (hq : ((1 + 3 / (Real.sqrt (f * (2 - f) / (1 - f) ^ 2)) ^ 2) * Real.arctan (Real.sqrt (f * (2 - f) / (1 - f) ^ 2))
+            - 3 / Real.sqrt (f * (2 - f) / (1 - f) ^ 2)) / 2 ≠ 0) :
+    let e2 := f * (2 - f)
+    let ep := Real.sqrt (e2 / (1 - f) ^ 2)
+    let m := omega ^ 2 * a ^ 2 * (a * (1 - f)) / GM
+    let q0 := ((1 + 3 / ep ^ 2) * Real.arctan ep - 3 / ep) / 2
+    flatteningToJ2 a GM omega f = e2 / 3 * (1 - 2 / 15 * m * ep / q0) := by
+  intro e2 ep m q0
+  have h1f : (1 - f) ≠ 0 := by linarith
+  have he2 : 0 < e2 := by simp only [e2]; nlinarith
+  have hx : 0 < e2 / (1 - f) ^ 2 := div_pos he2 (by positivity)
+  have hep : 0 < ep := Real.sqrt_pos.mpr hx
+  have hep2 : ep ^ 2 * (1 - f) ^ 2 = e2 := by
+    simp only [ep]
+    rw [Real.sq_sqrt hx.le]
+    field_simp
+  have hq0 : q0 ≠ 0 := hq
+  unfold flatteningToJ2 Qz
+  simp only [sq_real, lit_real, RealLike.atan, sqrt_real]
+  push_cast
+  change (e2 - 2 * (a * omega) ^ 2 * a / (15 * GM) * (1 - f) * (1 - f) ^ 2 / (q0 / (ep * ep ^ 2))) / 3 = _
+  have hepne : ep ≠ 0 := hep.ne'
+  simp only [m]
+  field_simp
+  linear_combination (-(2 * a ^ 3 * omega ^ 2 * ep * (1 - f))) * hep2
+
 end GeoVerif.Props.C19
